@@ -3,9 +3,11 @@ package main
 import (
 	"fmt"
 	"math/rand"
+	"strconv"
 	"strings"
 
 	"github.com/herohde/morlock/pkg/board"
+	"github.com/herohde/morlock/pkg/board/fen"
 )
 
 func init() {
@@ -77,6 +79,13 @@ func init() {
 				o.do(fmt.Sprintf("chess attacks %s %d %x", k, sq, occ))
 			}
 			o.Count("random-occupancy")
+		}
+		// (2') the same questions asked of the zero value + Xor as the very first thing a fresh process does
+		for i := 0; i < 2; i++ {
+			line := fmt.Sprintf("published rawline %d %d", r.Int63n(1<<40), n*4)
+			o.do(line)
+			o.Count("fresh-process-zero-value-occupancies")
+			o.Nontrivial(line)
 		}
 		// (3) derived queries on positions
 		playouts, synth := 60, 250
@@ -153,10 +162,74 @@ func init() {
 				if m.Type != board.Normal && m.Type != board.Push {
 					o.Nontrivial(f + moveUci(m))
 				}
+				// one more view of the successor: who attacks a square, asked with piece lists in any order
+				if next, ok := p.Move(m); ok && r.Intn(6) == 0 {
+					nf := fen.Encode(next, turn.Opponent(), 0, 1)
+					sq := int(m.To)
+					if r.Intn(2) == 0 {
+						sq = (sq + []int{1, 8, 9, 7, 63, 56, 55, 57}[r.Intn(8)]) % 64
+					}
+					o.do(fmt.Sprintf("chess isattackedby %s %d %sx %s", []string{"w", "b"}[r.Intn(2)], sq, []string{"12", "13", "16", "123456", "142", "21", "15", "135"}[r.Intn(8)], nf))
+					o.Count("successor:isattackedby")
+				}
 			}
 			if r.Intn(10) == 0 {
 				o.do("chess apply " + f + " " + []string{"e2e5", "a1a1", "e1g1", "e8c8", "e7e8q", "zz"}[r.Intn(6)])
 			}
 		})
+	})
+}
+
+// rawline <seed> <count>: evaluated in a FRESH process, before anything there has built a position or a rotated bitboard
+// through a constructor: the zero RotatedBitboard is the empty board and Xor builds every occupancy from it, so slider
+// attack sets asked of such a value - the first thing the process does - must already be those of a ray walk.
+func init() {
+	childOps["rawline"] = true
+	registerEval("rawline", func(a []string) string {
+		seed, _ := strconv.ParseInt(a[0], 10, 64)
+		n, _ := strconv.Atoi(a[1])
+		r := rand.New(rand.NewSource(seed))
+		ray := func(occ uint64, sq int, dirs [][2]int) uint64 {
+			var ret uint64
+			for _, d := range dirs {
+				f, rk := sq%8+d[0], sq/8+d[1]
+				for f >= 0 && f < 8 && rk >= 0 && rk < 8 {
+					ret |= 1 << uint(rk*8+f)
+					if occ&(1<<uint(rk*8+f)) != 0 {
+						break
+					}
+					f, rk = f+d[0], rk+d[1]
+				}
+			}
+			return ret
+		}
+		rookDirs, bishopDirs := [][2]int{{1, 0}, {-1, 0}, {0, 1}, {0, -1}}, [][2]int{{1, 1}, {1, -1}, {-1, 1}, {-1, -1}}
+		for i := 0; i < n; i++ {
+			occ := r.Uint64() & r.Uint64()
+			if i == 0 {
+				occ = 0
+			}
+			sq := r.Intn(64)
+			var rb board.RotatedBitboard // NOT NewRotatedBitboard: the zero value and Xor only
+			for s := 0; s < 64; s++ {
+				if occ&(1<<uint(s)) != 0 {
+					rb = rb.Xor(board.Square(s))
+				}
+			}
+			if uint64(rb.Mask()) != occ {
+				return fmt.Sprintf("MISMATCH zero-value+Xor occupancy %x reads back as %x", occ, uint64(rb.Mask()))
+			}
+			wr, wb := ray(occ, sq, rookDirs), ray(occ, sq, bishopDirs)
+			if got := uint64(board.RookAttackboard(rb, board.Square(sq))); got != wr {
+				return fmt.Sprintf("MISMATCH first queries of a process: rook on %d, occupancy %x (zero value + Xor): %x, ray walk %x", sq, occ, got, wr)
+			}
+			if got := uint64(board.BishopAttackboard(rb, board.Square(sq))); got != wb {
+				return fmt.Sprintf("MISMATCH first queries of a process: bishop on %d, occupancy %x (zero value + Xor): %x, ray walk %x", sq, occ, got, wb)
+			}
+			if got := uint64(board.QueenAttackboard(rb, board.Square(sq))); got != wr|wb {
+				return fmt.Sprintf("MISMATCH first queries of a process: queen on %d, occupancy %x (zero value + Xor): %x, ray walk %x", sq, occ, got, wr|wb)
+			}
+		}
+		return "ok"
 	})
 }
